@@ -155,3 +155,42 @@ Proof. vm_compute. repeat split. Qed.
 (* what the unsaturated product did (the defect repaired by the saturation guard) *)
 Lemma wrap_witness : wrap64 (2562048 * 3600000000000) < 0.
 Proof. vm_compute. reflexivity. Qed.
+
+(* ---- attempts: the header belongs to the instant it was computed at ---------------------------------
+   A client that makes a second attempt (a lost first round trip) may re-send the header it computed for the
+   first one, or compute a new one from what remains.  [computed] is when the header was computed from the
+   remaining time r, [sent2 >= computed] when the attempt that reaches the server is handed to the transport. *)
+
+(* whatever is re-sent, the handler's deadline exceeds the caller's by at most the time since the header was computed *)
+Lemma resent_header_bound r d computed sent2 arrival :
+  1000000 <= r < 2 ^ 63 -> computed <= sent2 <= arrival ->
+  decode_timeout (encode_timeout r) = Deadline d ->
+  arrival + d <= (computed + r) + (arrival - computed).
+Proof.
+  intros Hr Ht E. destruct (deadline_bracket r d computed arrival Hr ltac:(lia) E) as [_ B]. cbn in B. lia.
+Qed.
+
+(* a header computed anew for the attempt keeps the bound of the property: the transit of THAT attempt *)
+Lemma recomputed_header_bracket r d computed sent2 arrival :
+  let r2 := r - (sent2 - computed) in
+  1000000 <= r2 -> r < 2 ^ 63 -> computed <= sent2 <= arrival ->
+  decode_timeout (encode_timeout r2) = Deadline d ->
+  let caller := computed + r in let handler := arrival + d in
+  caller - 1000000 < handler /\ handler <= caller + (arrival - sent2).
+Proof.
+  intros r2 Hr2 Hr Ht E. subst r2.
+  destruct (deadline_bracket (r - (sent2 - computed)) d sent2 arrival ltac:(lia) ltac:(lia) E) as [A B].
+  cbn in A, B |- *. lia.
+Qed.
+
+(* a header re-sent as it was breaks it: a 3 s call whose first attempt is lost after 400 ms and whose second
+   attempt takes 1 ms to arrive gives the handler 400 ms more than the caller has *)
+Lemma resent_header_refuted :
+  exists r d computed sent2 arrival,
+    1000000 <= r < 2 ^ 63 /\ computed <= sent2 <= arrival /\
+    decode_timeout (encode_timeout r) = Deadline d /\
+    (computed + r) + (arrival - sent2) + 1000000 < arrival + d.
+Proof.
+  exists 3000000000, 3000000000, 0, 400000000, 401000000.
+  split; [lia|]. split; [lia|]. split; [vm_compute; reflexivity|lia].
+Qed.
